@@ -128,12 +128,12 @@ class Explorer(object):
         raise _NeedChoice(len(options))
 
     # ---- functions
-    def call_fd(self, fd, args, kwargs=None):
+    def call_fd(self, fd, args, kwargs=None, outer=None):
         self.depth += 1
         if self.depth > 6:
             raise Undecided('call depth bound reached in abstract exploration', fd)
         params = [a.arg for a in fd.args.args]
-        env = {}
+        env = dict(outer) if outer else {}       # a closure reads the variables of the function it was defined in (as they are now)
         defaults = fd.args.defaults
         kwargs = kwargs or {}
         for i, p in enumerate(params):
@@ -585,7 +585,7 @@ class Explorer(object):
         if isinstance(fval, tuple) and fval and fval[0] == 'builtin':
             return self.builtin(fval[1], args, e)
         if isinstance(fval, tuple) and fval and fval[0] == 'closure':
-            return self.call_fd(fval[1], args, kwargs)
+            return self.call_fd(fval[1], args, kwargs, outer=fval[2])
         if isinstance(fval, tuple) and fval and fval[0] == 'method':
             return self.method(fval[1], fval[2], args, e)
         if isinstance(fval, tuple) and fval and fval[0] == 'lambda':
@@ -606,7 +606,7 @@ class Explorer(object):
                 lenv[p_] = a_
             return self.expr(lam.body, lenv)
         if isinstance(f, tuple) and f and f[0] == 'closure':
-            return self.call_fd(f[1], args)
+            return self.call_fd(f[1], args, outer=f[2])
         raise Undecided('call of {!r} is outside the abstract interpreter'.format(f), node)
 
     def builtin(self, name, args, node):
@@ -726,6 +726,16 @@ class Explorer(object):
                 return list(recv)
             if m == 'map' and len(args) == 1:
                 return [self.apply(args[0], [x], node) for x in recv]
+            if m == 'entries' and not args:
+                return [[i_, x] for i_, x in enumerate(recv)]
+            if m == 'keys' and not args:
+                return list(range(len(recv)))
+            if m == 'values' and not args:
+                return list(recv)
+            if m == 'forEach' and len(args) == 1:
+                for i_, x in enumerate(list(recv)):
+                    self.apply(args[0], [x, i_], node)
+                return None
             if m in ('findIndex', 'find') and len(args) == 1:
                 for i_, x in enumerate(recv):
                     if self.truth(self.apply(args[0], [x], node), node):
